@@ -57,7 +57,9 @@ EXTREME_INTS = ["0", "1", "255", "256", "65535", "65536", "4294967295", "4294967
                 "340282366920938463463374607431768211455", "340282366920938463463374607431768211456",
                 "1" + "0" * 40, "9" * 400, "0" * 50 + "7", "1_0", "1__0", "999999999999999", "86400", "2147483648"]
 EXTREME_REALS = ["0.0", "1.0E400", "1.0E-400", "9" * 400 + ".5", "0." + "0" * 20 + "1", "1.5E+308", "1.8E308",
-                 "4.9E-324", "1.0e0", "1_0.0_1", "0.9", "0.000000000000001", "0.0000000000000001"]
+                 "4.9E-324", "1.0e0", "1_0.0_1", "0.9", "0.000000000000001", "0.0000000000000001",
+                 "1.5000000000000000", "0.25000000000000000000", "1.000000000000000", "0.0000000000000000",
+                 "1.5_000_000_000_000_000", "2.500000000000000000000001", "0.1234567890123456789"]
 
 
 def extreme_literals(rng):
